@@ -221,6 +221,7 @@ def tagCodec : Codec where
   law := fun _ => rfl
   grow := fun x => by simp only [List.length_cons]; omega
   declOk := fun x => by simp only [List.length_cons]; omega
+  nonempty := fun _ _ => by simp
 
 /-- an injective tokenisation: base-257 digits `byte + 1` -/
 def tokOf : Bytes → Nat
@@ -247,7 +248,7 @@ example : ∃ blocks idx nm bops,
       = (runOps goodCfg tagCodec crc0 0 (createFile [0x6e] 7) viewOps).file.length ∧
     loadIndex goodCfg tagCodec.toDecoder crc0 (runOps goodCfg tagCodec crc0 0 (createFile [0x6e] 7) viewOps).file
       = .ok (idx, nm) ∧
-    BlockStore.loadFile ⟨true, true, false⟩ (blockView tokOf tagCodec crc0 [0x6e] blocks) = .ok bops ∧
+    BlockStore.loadFile ⟨true, true, false, true⟩ (blockView tokOf tagCodec crc0 [0x6e] blocks) = .ok bops ∧
     idxView tokOf idx = BlockStore.Index.replay [] bops :=
   writer_load_agrees tokOf tokOf_inj goodCfg rfl tagCodec crc0 (fun u => by simp [tagCodec]) 0 [0x6e] 7 viewOps
     ⟨by decide, Or.inl rfl⟩ (by decide)
@@ -264,6 +265,6 @@ example : ∃ blocks idx nm bops,
       · exact Or.inl rfl
       · exact Or.inr (Or.inr rfl)
       · exact Or.inr (Or.inl rfl))
-    ⟨true, true, false⟩
+    ⟨true, true, false, true⟩
 
 end Hv.Storage
